@@ -406,7 +406,7 @@ Proof. exact json_total_float_free. Qed.
 Print Assumptions C06_json_total_float_free.
 
 Theorem C06_escape_js_total :
-  forall v args s, value_string v = Ok s -> dir_escape_js (Some v) args = Ok (Some (VStr (JsEscape.js_escape is_print_tbl s))).
+  forall v args s, value_string v = Ok s -> dir_escape_js (Some v) args = Ok (Some (VStr (JsEscape.js_escape_soy jsstr_pair_html is_print_tbl s))).
 Proof. exact dir_escape_js_total. Qed.
 Print Assumptions C06_escape_js_total.
 
